@@ -61,7 +61,7 @@ PROP = dict(
     rule="trypath: a tour is rebuilt (Some) that differs from the input, with duplicate-free path and joined edges over path "
          "nodes; lkh: path of >= 4 nodes that the search changed; dbscan: at least one cluster and (a second cluster or a "
          "noise point); kmed: >= 2 clusters one of which has >= 2 points; hier: >= 2 tiers; distinct = SHA-256 of the "
-         "canonical case input",
+         "canonical case input Stream lkh_grid: 8 cases of 25 000 instances each on a 4x4 / 5x5 grid with repeated addresses, searched inside the harness under an evaluation budget (2*10^6 cost evaluations).",
     modelled="lkh::make_edge/make_edge_set (BTreeSet order), Tour::new, Tour::try_path (edge surgery, successor walk with "
              "HashMap overwrite, visited/length validation), KOpt::optimize loop; dbscan::create_clusters line by line; "
              "kmedoids::assign_points_to_medoids, update_medoids, the loop of KMedoids::calculate with both return paths, "
